@@ -191,3 +191,39 @@ Proof. split; [vm_compute; discriminate|exists tt; vm_compute; split; reflexivit
 Example C13_behaves_as_inhabited :
   behaves_as (fun _ _ args st => (Ok (VList args), st)) VNull (fun args => VList args).
 Proof. intros args st. exists st. reflexivity. Qed.
+
+(* ---- ... the same three for the evaluator with EVERY built-in of the table and `^` (EvalAll.v),
+        for every oracle o ---- *)
+Require Import Blots.EvalAll Blots.proofs.AllHigherOrder.
+Theorem C13_map_vs_via_in_all_evaluator : forall o release d fr l f st,
+  is_callable f = true ->
+  rle (AD release (binop_all o) (builtin_all o) d fr (VBuiltin B_map) (VBuiltin B_map) [VList l; f] st)
+      (binop_all o (AD release (binop_all o) (builtin_all o) d fr) Via (VList l) f st).
+Proof. exact map_form_le_via_form_all. Qed.
+Check C13_map_vs_via_in_all_evaluator : forall o release d fr l f st,
+  is_callable f = true ->
+  rle (AD release (binop_all o) (builtin_all o) d fr (VBuiltin B_map) (VBuiltin B_map) [VList l; f] st)
+      (binop_all o (AD release (binop_all o) (builtin_all o) d fr) Via (VList l) f st).
+Print Assumptions C13_map_vs_via_in_all_evaluator.
+
+Theorem C13_filter_vs_where_in_all_evaluator : forall o release d fr l f st,
+  is_callable f = true ->
+  rle (AD release (binop_all o) (builtin_all o) d fr (VBuiltin B_filter) (VBuiltin B_filter) [VList l; f] st)
+      (binop_all o (AD release (binop_all o) (builtin_all o) d fr) Where (VList l) f st).
+Proof. exact filter_form_le_where_form_all. Qed.
+Check C13_filter_vs_where_in_all_evaluator : forall o release d fr l f st,
+  is_callable f = true ->
+  rle (AD release (binop_all o) (builtin_all o) d fr (VBuiltin B_filter) (VBuiltin B_filter) [VList l; f] st)
+      (binop_all o (AD release (binop_all o) (builtin_all o) d fr) Where (VList l) f st).
+Print Assumptions C13_filter_vs_where_in_all_evaluator.
+
+Theorem C13_into_vs_call_in_all_evaluator : forall o release d fr x f st,
+  is_callable f = true ->
+  binop_all o (AD release (binop_all o) (builtin_all o) d fr) Into x f st
+  = AD release (binop_all o) (builtin_all o) d fr f f [x] st.
+Proof. exact into_form_is_call_form_all. Qed.
+Check C13_into_vs_call_in_all_evaluator : forall o release d fr x f st,
+  is_callable f = true ->
+  binop_all o (AD release (binop_all o) (builtin_all o) d fr) Into x f st
+  = AD release (binop_all o) (builtin_all o) d fr f f [x] st.
+Print Assumptions C13_into_vs_call_in_all_evaluator.
